@@ -221,7 +221,15 @@ func (h *vHist) genInput(tag string) vBadInput {
 			in.opts = []ProvideOption{As(new(vI0))}
 		}
 	} else if in.api == 0 && in.opts == nil {
-		switch verifNdInt(tag+".opt", 17) {
+		switch verifNdInt(tag+".opt", 21) {
+		case 17:
+			in.opts = []ProvideOption{Group("g"), As(42)}
+		case 18:
+			in.opts = []ProvideOption{Group("g"), As(nil)}
+		case 19:
+			in.opts = []ProvideOption{Group("g"), As(new(vA))}
+		case 20:
+			in.opts = []ProvideOption{Group("g"), As(new(vI0), new(vPlainIface))}
 		case 14:
 			in.opts = []ProvideOption{Group(",flatten")}
 		case 15:
